@@ -38,6 +38,7 @@ func init() {
 			{ID: "C11.15", Desc: "the Date an age is computed from survives the hop-by-hop strip (`Connection: Date`)", Run: func(c *Ctx) { ruleDateSurvivesStrip(c, "C11.15") }, MinSites: 1},
 			{ID: "C11.16", Desc: "the hop-by-hop set used for one response is not the shared table (`Connection: Age` of one response does not take the Age out of later ones)", Run: func(c *Ctx) { ruleHopTablePerResponse(c, "C11.16") }, MinSites: 1},
 			{ID: "C11.17", Desc: "the cache's own Age and status fields are written after the origin-named fields were stripped", Run: func(c *Ctx) { ruleOwnFieldsSetLast(c, "C11.17") }, MinSites: 1},
+			{ID: "C11.18", Desc: "after a 304 the Age counts from the validation exchange (the write-back carries its times)", Run: func(c *Ctx) { ruleC08_2(c); renameRule(c, "C08.2", "C11.18") }, MinSites: 1},
 		},
 	})
 }
